@@ -536,6 +536,32 @@ func otherDateFormat(f envs.DateFormat) envs.DateFormat {
 	return dateFormats[0]
 }
 
+func dayLenText(tz *time.Location, d day) string {
+	if !dayExists(tz, d) {
+		return "a date the zone skipped: no instant is on it"
+	}
+	return dayLen(tz, d).String() + " long"
+}
+
+var skippedDays = map[string]day{"Pacific/Apia": {2011, 12, 30}, "Pacific/Kiritimati": {1994, 12, 31}}
+
+func (d day) normalized() day {
+	t := time.Date(d.Y, time.Month(d.M), d.D, 12, 0, 0, 0, time.UTC)
+	return day{t.Year(), int(t.Month()), t.Day()}
+}
+
+// is there an instant whose local date in the zone is d?
+func dayExists(tz *time.Location, d day) bool {
+	t := time.Date(d.Y, time.Month(d.M), d.D, 0, 0, 0, 0, time.UTC).Add(-15 * time.Hour)
+	for i := 0; i < 42*4; i++ {
+		if localDay(tz, t) == d {
+			return true
+		}
+		t = t.Add(15 * time.Minute)
+	}
+	return false
+}
+
 func localDay(tz *time.Location, t time.Time) day {
 	y, m, d := t.In(tz).Date()
 	return day{y, int(m), d}
@@ -602,7 +628,9 @@ func formatDay(df envs.DateFormat, d day, r *hx.Rand) string {
 func genWorld(idx int, r *hx.Rand) *worldSpec {
 	w := &worldSpec{Index: idx}
 	w.TZ = zones[idx%len(zones)]
-	if r.Chance(1, 4) {
+	if r.Chance(1, 4) && idx >= len(zones) {
+		// (the first pass through the list is fixed, so that every run has a world in each zone — in particular the two
+		// whose calendars skipped a whole day, with the deterministic witnesses below)
 		w.TZ = hx.Pick(r, zones)
 	}
 	tz := mustLoc(w.TZ)
@@ -631,6 +659,10 @@ func genWorld(idx int, r *hx.Rand) *worldSpec {
 		w.Days = append(w.Days, day{1975 + r.Intn(70), 1 + r.Intn(12), 1 + r.Intn(28)})
 	}
 	w.Days = append(w.Days, day{2024, 2, 29}, day{1999, 12, 31})
+	// zones that skipped a whole calendar day when they moved across the date line: the skipped day and the next one
+	if sk, ok := skippedDays[w.TZ]; ok {
+		w.Days = append(w.Days, sk, day{sk.Y, sk.M, sk.D + 1}.normalized())
+	}
 
 	nc := r.Range(3, 5)
 	for i := 0; i < nc; i++ {
@@ -664,6 +696,10 @@ func genWorld(idx int, r *hx.Rand) *worldSpec {
 			}
 		}
 		c.CreatedOn = boundaryInstant(tz, hx.Pick(rc, w.Days), rc)
+		if sk, ok := skippedDays[w.TZ]; ok && i == 0 {
+			// a contact created at noon of the local day that follows the skipped one
+			c.CreatedOn = time.Date(sk.Y, time.Month(sk.M), sk.D+1, 12, 0, 0, 0, tz).UTC()
+		}
 		if rc.Chance(2, 3) {
 			t := boundaryInstant(tz, hx.Pick(rc, w.Days), rc)
 			c.LastSeenOn = &t
@@ -1728,7 +1764,10 @@ func (w *world) audit(res *hx.Result, spec *worldSpec, ci int, cs *contactSpec, 
 						// (e.g. the whole comparison made for the previous day).
 						first := time.Date(v.d.Y, time.Month(v.d.M), v.d.D, 0, 0, 0, 0, w.tz)
 						end := first.Add(24 * time.Hour)
-						if lt == t.Before(first) && eq == (!t.Before(first) && t.Before(end)) && gt == !t.Before(end) {
+						if !dayExists(w.tz, *v.d) {
+							// the zone skipped the whole date (it moved across the date line): no instant is on the queried day
+							class = "date-comparison:queried-day-skipped-by-zone"
+						} else if lt == t.Before(first) && eq == (!t.Before(first) && t.Before(end)) && gt == !t.Before(end) {
 							class = "date-comparison:dst-transition-day"
 						} else if v.edge {
 							class = "date-comparison:value-time-overflows-day"
@@ -1741,8 +1780,8 @@ func (w *world) audit(res *hx.Result, spec *worldSpec, ci int, cs *contactSpec, 
 						class = "date-comparison:value-time-overflows-day"
 					}
 					res.Fail(class, fi(p, "=", v.text, fmt.Sprintf("value %s = %s local", t.Format(time.RFC3339Nano), t.In(w.tz).Format(time.RFC3339Nano))),
-						fmt.Sprintf("value is on local day %s, queried day %s (%s long): expected </=/> %v/%v/%v, got %v/%v/%v",
-							localDay(w.tz, *t), *v.d, dayLen(w.tz, *v.d), cmp < 0, cmp == 0, cmp > 0, lt, eq, gt))
+						fmt.Sprintf("value is on local day %s, queried day %s (%s): expected </=/> %v/%v/%v, got %v/%v/%v",
+							localDay(w.tz, *t), *v.d, dayLenText(w.tz, *v.d), cmp < 0, cmp == 0, cmp > 0, lt, eq, gt))
 				} else if dayLen(w.tz, *v.d) != 24*time.Hour {
 					res.Dist("date-audit:transition-day-consistent")
 				} else {
